@@ -29,7 +29,8 @@ rng = ck.rng
 
 
 def case_text(c):
-    return "".join([f"case {c['id']} {c['engine']}\n"] + [" ".join(map(str, l)) + "\n" for l in c["lines"]]
+    fl = ",".join(c.get("flags", []))
+    return "".join([f"case {c['id']} {c['engine']}{' ' + fl if fl else ''}\n"] + [" ".join(map(str, l)) + "\n" for l in c["lines"]]
                    + ["end\n"])
 
 
@@ -375,8 +376,25 @@ def directed_cases():
         for nf in (0, 1, 2, 3):
             for order in ("a-first", "b-first"):
                 for xf in (False, True):
-                    cs.append(gen_cross(f"cross-{k}", ENGINES[k % len(ENGINES)], hk, nf, order, xf))
-                    k += 1
+                    for fl in ([], ["reload"], ["preext"], ["postext"], ["reload", "preext"]):
+                        eng = ENGINES[k % len(ENGINES)]
+                        if "reload" in fl and eng == "regen":
+                            eng = "gen"
+                        c = gen_cross(f"cross-{k}", eng, hk, nf, order, xf)
+                        c["flags"] = fl
+                        cs.append(c)
+                        k += 1
+    # reload of plain modules: every item kind, written over and initialised again
+    for j, eng in enumerate(["interp", "gen", "lazy", "bb"]):
+        cs.append({"id": f"reload-{j}", "engine": eng, "flags": ["reload"] + (["preext"] if j % 2 else []),
+                   "lines": [["import", "x"], ["efunc", "ef", "u16", 0xabcd], ["bss", "b", 5], ["data", "-", "i32", 1, "01020304"],
+                             ["bss", "-", 3], ["ref", "-", 0, 4], ["expr", "-", 1], ["bss", "-", 0], ["func", "f"],
+                             ["bss", "-", 9], ["data", "d", "u8", 2, "aabb"], ["bss", "-", 1]]})
+    # reload of a module with label references (known finding C14:lref-reload-cycle while unfixed)
+    for j, eng in enumerate(["interp", "gen", "lazy"]):
+        cs.append({"id": f"reload-lref-{j}", "engine": eng, "flags": ["reload"],
+                   "lines": [["lfunc", "lf", 2, 0], ["bss", "b", 4], ["lref", "-", 0, 1, "-", 2],
+                             ["lref", "pb0", 0, 0, "-", 0], ["lref", "-", 0, 1, 0, 6], ["lref", "pb1", 0, 1, "-", 0]]})
     for eng in ENGINES:
         cs.append({"id": f"decl-imp-{eng}", "engine": eng,
                    "lines": [["import", "e1"], ["ref", "r", 0, 0], ["ref", "-", 0, 16], ["import", "e2"],
@@ -562,6 +580,40 @@ def lref_defect_pattern(c, model):
     return True
 
 
+KNOWN_TEXT = {
+    "C14:lref-nonhead-unregistered": (
+        "lref that is not a section head is never initialised",
+        "harness prints lref=unregistered: the lref is not on its function's first_lref list, so no engine ever "
+        "writes the slot"),
+    "C14:lref-reload-cycle": (
+        "loading a module with lref items a second time makes func->first_lref cyclic (every engine then loops forever)",
+        "harness stops with `error lref-list-cyclic` after the second MIR_load_module: link_module_lrefs pushes every "
+        "lref onto a list that still contains it"),
+}
+
+
+def assign_flags(c):
+    """history variations: reload after the program wrote its data, names registered more than once"""
+    ls = c["lines"]
+    has_lref = any(l[0] == "lref" for l in ls)
+    # a second load of an exported *function* is refused unless redefinition is permitted, and the lazy-bb
+    # generator cannot take a function it has already generated (called) through MIR_link again: neither is
+    # about data sections, so such modules are not reloaded here
+    funcs = {l[1] for l in ls if l[0] in ("func", "efunc", "lfunc", "afunc")}
+    exports_func = any(l[0] == "export" and l[1] in funcs for l in ls)
+    bb_called = c["engine"] == "bb" and any(l[0] == "lfunc" for l in ls)
+    r = rng.below(12)
+    fl = []
+    if r < 3 and not has_lref and c["engine"] != "regen" and not exports_func and not bb_called:
+        fl = ["reload"] + (["preext"] if r == 2 else [])
+    elif r == 3 or r == 4:
+        fl = ["preext"]
+    elif r == 5:
+        fl = ["postext"]
+    c["flags"] = fl
+    return c
+
+
 # ------------------------------------------------------------------------------------------ shrinking
 def remove_line(c, j):
     ls = c["lines"]
@@ -586,7 +638,7 @@ def remove_line(c, j):
         if l[0] == "import" and find_def(new, l[1]) is not None \
                 and not any(x[0] == "export" and x[1] == l[1] for x in new):
             return None
-    return {"id": c["id"], "engine": c["engine"], "lines": new}
+    return {"id": c["id"], "engine": c["engine"], "lines": new, "flags": list(c.get("flags", []))}
 
 
 def shrink(c, fails, budget=150):
@@ -644,6 +696,10 @@ def main():
                     problems.append((c, nm, "tie", f"no output (model={m is not None}, impl={got is not None})"))
                     continue
                 if got == m:
+                    continue
+                if got and got[0].startswith("error lref-list-cyclic") and "reload" in c.get("flags", []) \
+                        and any(l[0] == "lref" for l in c["lines"]):
+                    problems.append((c, nm, "known", "C14:lref-reload-cycle"))
                     continue
                 bad = spec_check(c, got)
                 known_bad, other_bad = [], []
@@ -703,7 +759,7 @@ def main():
     thorough = ck.tier == "thorough"
     wl = sorted(set(words("AawWqzbBrRxyeElLdDFP", 4 if thorough else 3)))
     for k, w in enumerate(wl):
-        cases.append(gen_word(f"w-{w}", ENGINES[(k + ck.seed) % len(ENGINES)], w))
+        cases.append(assign_flags(gen_word(f"w-{w}", ENGINES[(k + ck.seed) % len(ENGINES)], w)))
     n_random = 60000 if thorough else 4000
     for k in range(n_random):
         length = 1 + rng.below(12) if rng.chance(2, 3) else 10 + rng.below(40)
@@ -718,7 +774,7 @@ def main():
                 if rng.chance(2, 3):
                     bb.add("export", nm)
             add_module_b(bb, rng.choice(["a-first", "b-first"]))
-        cases.append(c)
+        cases.append(assign_flags(c))
     ck.log(f"{len(cases)} cases ({len(corpus)} corpus, {len(wl)} exhaustive words, {n_random} random)")
 
     t = time.time()
@@ -730,14 +786,14 @@ def main():
     reported = set()
     for (c, nm, kind, detail) in problems:
         if kind == "known":
-            if "known" not in {r[0] for r in reported}:
-                reported.add(("known", nm, c["id"]))
-                small = min((p[0] for p in problems if p[2] == "known"), key=lambda cc: len(cc["lines"]))
+            if ("known", detail) not in {(r[0], r[1]) for r in reported}:
+                reported.add(("known", detail, c["id"]))
+                small = min((p[0] for p in problems if p[2] == "known" and p[3] == detail),
+                            key=lambda cc: len(cc["lines"]))
+                what, det = KNOWN_TEXT[detail]
                 ck.violation({"stage": "tie", "input": small, "input_text": case_text(small), "flavour": nm,
-                              "detail": "harness prints lref=unregistered: the lref is not on its function's "
-                                        "first_lref list, so no engine ever writes the slot",
-                              "how_to_rerun": "./check C14 --replay <this file>"},
-                             what="lref that is not a section head is never initialised", signature=detail)
+                              "detail": det, "how_to_rerun": "./check C14 --replay <this file>"},
+                             what=what, signature=detail)
             continue
         key = (kind, nm)
         if len([r for r in reported if r[0] == kind]) >= 3:
@@ -782,6 +838,12 @@ def main():
     for c in cases:
         ls = c["lines"]
         engines[c["engine"]] = engines.get(c["engine"], 0) + 1
+        for f in c.get("flags", []):
+            feat["history:" + f] = feat.get("history:" + f, 0) + 1
+        if "reload" in c.get("flags", []):
+            feat["reload_cases_with_bss"] = feat.get("reload_cases_with_bss", 0) + any(l[0] == "bss" and int(l[2]) > 0 for l in ls)
+        if c.get("flags") and any(f in c["flags"] for f in ("preext", "postext")) and any(l[0] == "import" for l in ls):
+            feat["name_registered_twice_cases"] = feat.get("name_registered_twice_cases", 0) + 1
         m = model.get(c["id"]) or []
         secsz = {}
         for l in m:
@@ -855,7 +917,9 @@ def main():
                       "lref (address form, difference form, difference form whose base label is in unreachable code), func, proto) + directed two-module grid (exported data/bss/ref/expr section head with 0-3 "
                       "anonymous followers, export before/after the definition, importing module loaded before/after, refs "
                       "and address expr functions to the import) + random item "
-                      "sequences of length 1..50 (a quarter of them with a second importing module); each run under asan(+asserts) and plain -DNDEBUG harness, engine "
+                      "sequences of length 1..50 (a quarter of them with a second importing module); about a third of all cases get a "
+                      "history flag: reload (all items overwritten, modules loaded+linked again), preext/postext (import names "
+                      "registered before/after the exporting module, so a name is published twice); each run under asan(+asserts) and plain -DNDEBUG harness, engine "
                       "interp/gen/lazy by rotation. non-trivial = the module has a section with >= 2 items; "
                       "distinct = different line lists")
     ck.cov["distribution"] = {"line_kinds": kinds, "element_types": types, "engines": engines,
